@@ -81,32 +81,32 @@ def ready_pred(ctx):
     ]
     for b in r.readiness_predicates():
         paths = enumerate_paths(b)
-        true_paths = []
+        true_paths_ = []
         for p in paths:
-            rv = path_return_value(b, p)
-            if rv and rv[0] == "const" and rv[1] == "false":
+            ro = ret_origins(b, p)
+            if is_const_ret(ro, "false"):
                 continue
-            true_paths.append((p, rv))
-        ctx.need(true_paths, f"a path of {short(b.name)} that can return true")
+            true_paths_.append((p, ro))
+        ctx.need(true_paths_, f"a path of {short(b.name)} that can return true")
         for (nm, pd, pol) in required:
             missing = []
-            for (p, rv) in true_paths:
+            for (p, ro) in true_paths_:
                 facts = path_bool_facts(b, p)
                 ok = fact_holds(facts, pd, pol)
-                if not ok and rv and rv[0] == "call" and pol is True and pd(rv[1]):
-                    ok = True  # the atom is the returned value itself
-                if not ok and rv and rv[0] == "local":
-                    descs = bool_atom_desc(b, rv[1])
-                    for d in descs:
-                        if d[0] == "not" and any(pd(i) for i in d[1]) and pol is False:
+                if not ok:
+                    # the atom may be the returned value itself (last conjunct), possibly negated
+                    for o in ro:
+                        if o[0] == "call" and pol is True and pd(call_desc(b, o[3], o[2])):
                             ok = True
-                        elif pd(d) and pol is True:
+                        if o[0] == "not" and pol is False and any(x[0] == "call" and pd(call_desc(b, x[3], x[2])) for x in o[1]):
+                            ok = True
+                        if o[0] == "field" and pol is True and pd(("field", o[1][-1], o[1])):
                             ok = True
                 if not ok:
                     missing.append(p)
             ctx.check(not missing, f"{short(b.name)}/{nm}", [b.loc()], props=(["C01", "C11"] if "Service" in nm else ["C01"]), found=
-                      f"{len(missing)} of {len(true_paths)} true-returning path(s) do not test `{nm}`; e.g. " + (" ".join(repr(e) for e in missing[0][:12]) if missing else ""),
-                      detail=f"{len(paths)} paths, {len(true_paths)} can return true")
+                      f"{len(missing)} of {len(true_paths_)} true-returning path(s) do not test `{nm}`; e.g. " + (" ".join(repr(e) for e in missing[0][:12]) if missing else ""),
+                      detail=f"{len(paths)} paths, {len(true_paths_)} can return true")
 
 
 @rule("C01.INIT-FULL", ["C01"], """where TargetActorHelper is constructed, unavailable_dependencies receives an entry under
@@ -139,6 +139,16 @@ def init_full(ctx):
                 derives = atom_has_field(vat, "dependencies", "TargetMetadata")
                 for k in kinds:
                     found[k] = (cbb, derives)
+            if not found:
+                # second idiom: the map is collected from an iteration over the execution kinds (a constant listing both) paired with the dependency set
+                at = b.prov.operand_atoms(op)
+                kinds = atom_aggs(at, "ExecutionKind")
+                derives = atom_has_field(at, "dependencies", "TargetMetadata")
+                collected = any(c.endswith("::collect") or "from_iter" in c for c in atom_callres(at))
+                for k in ("Build", "Service"):
+                    ctx.check(collected and k in kinds and derives, f"{short(b.name)}/{k}", [b.loc(bb)],
+                              f"the map that becomes unavailable_dependencies has no entry for ExecutionKind::{k} deriving from TargetMetadata.dependencies")
+                continue
             for k in ("Build", "Service"):
                 if k not in found:
                     ctx.bad(f"{short(b.name)}/{k}", [b.loc(bb)], f"no insertion under ExecutionKind::{k} into the map that becomes unavailable_dependencies")
@@ -252,6 +262,43 @@ def _must_pass(body, region, bb):
     return True
 
 
+def _same_as_executed(body, local, depth=0):
+    """+1 if bool `local` always equals the value stored in field `executed` by this body, -1 if it is its negation, else 0"""
+    from common import _bool_source_local
+    stored = set()
+    for blk in body.normal_blocks():
+        for st in blk["stmts"]:
+            pr = st["lhs"]["proj"]
+            if pr and pr[-1]["k"] == "field" and pr[-1]["name"] == "executed" and st["rv"]["k"] == "use" and st["rv"]["op"]["k"] in ("copy", "move") and not st["rv"]["op"]["place"]["proj"]:
+                stored.add(_bool_source_local(body, st["rv"]["op"]["place"]["local"]))
+    src = _bool_source_local(body, local)
+    if src in stored:
+        return 1
+    defs = body.prov.defs.get(src, ())
+    if len(defs) == 1 and defs[0][0] == "assign":
+        rv = defs[0][1]["rv"]
+        if rv["k"] == "use" and rv["op"]["k"] in ("copy", "move") and place_fields(rv["op"]["place"])[-1:] == ["executed"]:
+            return 1
+        if rv["k"] == "unop" and rv["op"] == "Not" and rv["a"]["k"] in ("copy", "move"):
+            p = rv["a"]["place"]
+            if not p["proj"] and _bool_source_local(body, p["local"]) in stored:
+                return -1
+            if place_fields(p)[-1:] == ["executed"]:
+                return -1
+    return 0
+
+
+def executed_true_region(body):
+    out = set()
+    for e in body.edges:
+        l = e.label
+        if l and l[0] == "bool" and l[2] is not None:
+            sgn = _same_as_executed(body, l[2])
+            if (sgn == 1 and l[1] is True) or (sgn == -1 and l[1] is False):
+                out |= body.dominated_by_edge(e)
+    return out
+
+
 def classify_ok_site(r, body, bb, st):
     """idiom of an ActorInputMessage::Ok construction: 'I1' | 'I2' | 'I3' | None, with a reason.
     The site is looked at inside the actor view that contains it (a handler extracted into a method is part of the actor)."""
@@ -259,11 +306,16 @@ def classify_ok_site(r, body, bb, st):
     return _classify_ok_site(r, body, bb, st)
 
 
-def _classify_ok_site(r, body, bb, st):
-    # I1: dominated by the true edge of a read of `executed`
-    G1 = guard_region(body, desc_is_field_read("executed"), True)
+def classify_msg_site(r, body, msg):
+    """idiom of an Ok message used in `body` (already a role view): judged where its construction is decided (msg.bb in msg.body)"""
+    return _classify_ok_site(r, msg.body, msg.bb, msg.st, msg_kinds=msg.kinds, actual=msg.actual)
+
+
+def _classify_ok_site(r, body, bb, st, msg_kinds=None, actual="?"):
+    # I1: dominated by an edge on which `executed` is known to be true (a read of the field, or the very value that was stored into it)
+    G1 = guard_region(body, desc_is_field_read("executed"), True) | executed_true_region(body)
     if bb in G1:
-        return "I1", "under a true read of `executed`"
+        return "I1", "under a true `executed`"
     # I3: dominated by the true edge of is_empty() on a value reached from unavailable_dependencies
     def pend_empty(d):
         return d[0] == "call" and d[1].endswith("::is_empty") and d[2] and atom_has_field(d[2][0], "unavailable_dependencies", "TargetActorHelper")
@@ -272,7 +324,8 @@ def _classify_ok_site(r, body, bb, st):
         # the emptiness test must concern the kind the acknowledgement is about: the message's own kind
         def pend_empty_of_msg_kind(d):
             return pend_empty(d) and any(a[0] == "field" and a[2] == "kind" and path_ends(a[1], "ActorInputMessage") for a in d[2][0])
-        if bb in guard_region(body, pend_empty_of_msg_kind, True) and "msg" in kind_of_operand(body, agg_field_op(st, "kind")):
+        kk0 = msg_kinds if msg_kinds is not None else kind_of_operand(body, agg_field_op(st, "kind"))
+        if bb in guard_region(body, pend_empty_of_msg_kind, True) and "msg" in kk0:
             # and nothing else may guard it except the bookkeeping results of this very message
             extra = conditions_within(dominating_conditions(body, bb), [(pend_empty, True), (cond_is_remove_result("unavailable_dependencies"), True), (cond_is_insert_result("requesters"), True),
                                                                       (lambda d: d[0] == "field" and d[1] == "actual", None)])
@@ -289,10 +342,11 @@ def _classify_ok_site(r, body, bb, st):
             if k != "*" and k not in kinds and bb in blks:
                 kop = agg_field_op(st, "kind")
                 aop = agg_field_op(st, "actual")
-                kk = kind_of_operand(body, kop)
-                if kk == {k} and is_const(aop, "false"):
+                kk = msg_kinds if msg_kinds is not None else kind_of_operand(body, kop)
+                act = actual if actual != "?" else (const_val(aop) if aop else None)
+                if kk == {k} and act == "false":
                     return "I2", f"foreign-kind reply for {k}"
-                return None, f"in the Requested{{{k}}} handler of an actor that does not execute {k}, but kind={sorted(kk)} actual={const_val(aop)}"
+                return None, f"in the Requested{{{k}}} handler of an actor that does not execute {k}, but kind={sorted(kk)} actual={act}"
     return None, "not under a true `executed`, not under an empty pending set, not a foreign-kind reply"
 
 
@@ -303,6 +357,25 @@ def ok_discipline(ctx):
     n = 0
     for (b, sites) in r.bodies_constructing("ActorInputMessage", "Ok"):
         for (bb, st) in sites:
+            if not b.coroutine and b.kind in ("Fn", "AssocFn") and "ActorInputMessage" in b.ret and (st["lhs"]["local"] == 0 or 0 in b.prov.flows_forward(st["lhs"]["local"])):
+                # a constructor helper (`fn ok_message(..) -> ActorInputMessage`): what matters is where the message it builds is asked for
+                for (cv, cbb, ct) in r.callers_of(b):
+                    n += 1
+                    kinds = set()
+                    kop = agg_field_op(st, "kind")
+                    for a in b.prov.operand_atoms(kop, interproc=False):
+                        if a[0] == "param" and a[1] - 1 < len(ct["args"]):
+                            kinds |= kind_of_operand(cv, ct["args"][a[1] - 1])
+                    kinds |= kind_of_operand(b, kop) & {"Build", "Service"}
+                    aop = agg_field_op(st, "actual")
+                    idiom, why = _classify_ok_site(r, cv, cbb, st, msg_kinds=kinds, actual=(const_val(aop) if aop else None))
+                    props = {"I1": ["C01", "C06"], "I2": ["C01"], "I3": ["C01", "C20"]}.get(idiom)
+                    inst = f"{short(cv.name)}/via-{short(b.name).split('::')[-1]}@{cbb}"
+                    if idiom:
+                        ctx.ok(inst, [site(cv, cbb)], f"{idiom}: {why}", props=props)
+                    else:
+                        ctx.bad(inst, [site(cv, cbb)], f"unguarded readiness acknowledgement: {why}", props=["C01", "C20"] if (r.is_role(r.actors(), cv) and not r.actor_kinds(cv)) else ["C01"])
+                continue
             idiom, why = classify_ok_site(r, b, bb, st)
             n += 1
             props = {"I1": ["C01", "C06"], "I2": ["C01"], "I3": ["C01", "C20"]}.get(idiom)
@@ -354,6 +427,10 @@ def flag_discipline(ctx):
             ctx.ok(f"executed=false/{short(b.name)}", [site(b, bb)])
             continue
         good = False
+        if kind == "rv" and v["k"] == "use" and v["op"]["k"] in ("copy", "move") and not v["op"]["place"]["proj"]:
+            descs = bool_atom_desc(b, v["op"]["place"]["local"])
+            if descs and all(d[0] == "not" and d[1] and all(x[0] == "field" and x[1] == "to_execute" for x in d[1]) for d in descs):
+                good = True
         if kind == "rv" and v["k"] == "unop" and v["op"] == "Not":
             l = operand_local(v["a"])
             f1 = place_fields(v["a"]["place"]) if v["a"]["k"] != "const" else []
